@@ -4,7 +4,7 @@
 # of /repo's HEAD with the change applied (VERIF_REPO screening mode: /repo itself is not touched). Prints one line per seed.
 cd /verif/seeded || exit 2
 SEEDS="${*:-$(ls)}"
-WT=/tmp/wt_recheck
+WT=${WT:-/tmp/wt_recheck}
 git -C /repo worktree remove --force $WT >/dev/null 2>&1
 git -C /repo worktree add -q $WT HEAD || exit 3
 for s in $SEEDS; do
